@@ -234,9 +234,14 @@ struct JobState {
     res: JobResult,
     in_flight: usize,
     selfcheck_counter: u64,
+    finalized: bool,
 }
 
 impl JobState {
+    fn has_work(&self) -> bool {
+        !self.res.capped && self.stacks.iter().any(|s| !s.is_empty())
+    }
+
     fn new(job: Job) -> Self {
         let mut stacks: Vec<Vec<Pending>> = (0..=job.bound).map(|_| Vec::new()).collect();
         let init = Arc::new(job.initial.clone());
@@ -256,6 +261,7 @@ impl JobState {
             },
             in_flight: 0,
             selfcheck_counter: 0,
+            finalized: false,
         }
     }
 
@@ -349,13 +355,14 @@ impl JobState {
 }
 
 // ---------------------------------------------------------------------------
-// Runner with disposable worker threads.
+// Runner with disposable worker threads. Several workers may drive the same job.
 
 struct Shared {
     queue: Mutex<VecDeque<Job>>,
+    active_jobs: Mutex<Vec<Arc<Mutex<JobState>>>>,
     results: Mutex<Vec<JobResult>>,
-    /// job states whose worker thread got permanently blocked and that need a new thread
-    orphaned: Mutex<Vec<Arc<Mutex<JobState>>>>,
+    /// number of worker threads that got permanently blocked and must be replaced
+    respawn: AtomicUsize,
     active: AtomicUsize,
     blocked_threads: AtomicUsize,
     cv: Condvar,
@@ -391,11 +398,25 @@ pub fn stash_verdict(v: &Verdict) {
     STASH.with(|s| *s.borrow_mut() = Some(v.clone()));
 }
 
+fn maybe_finalize(shared: &Arc<Shared>, state: &Arc<Mutex<JobState>>) {
+    let mut st = state.lock().unwrap();
+    if st.finalized || st.in_flight > 0 || st.has_work() {
+        return;
+    }
+    st.finalized = true;
+    let mut res = std::mem::take(&mut st.res);
+    res.bound_completed = st.job.bound;
+    if res.capped {
+        res.bound_completed = res.execs_by_devs.keys().max().copied().unwrap_or(0).saturating_sub(1);
+    }
+    shared.results.lock().unwrap().push(res);
+}
+
 /// Called (through the `saa` seam) right before the calling thread would park
 /// on a synchronous lock. Under the single-threaded executor the owner of that
 /// lock is a suspended task of the same thread, so the wait can never end.
-/// Records the execution as thread-blocked, hands the job to a fresh worker
-/// thread and parks this thread for good.
+/// Records the execution as thread-blocked, asks for a replacement worker and
+/// parks this thread for good.
 pub fn on_would_block() {
     let cur = CURRENT.with(|c| c.borrow_mut().take());
     let Some(cur) = cur else {
@@ -422,7 +443,9 @@ pub fn on_would_block() {
         st.in_flight -= 1;
         st.absorb(&cur.pending, trace, diverged, verdict, outcome);
     }
-    cur.shared.orphaned.lock().unwrap().push(cur.state.clone());
+    maybe_finalize(&cur.shared, &cur.state);
+    cur.shared.heartbeat.fetch_add(1, Ordering::Relaxed);
+    cur.shared.respawn.fetch_add(1, Ordering::SeqCst);
     cur.shared.blocked_threads.fetch_add(1, Ordering::SeqCst);
     cur.shared.active.fetch_sub(1, Ordering::SeqCst);
     {
@@ -434,8 +457,9 @@ pub fn on_would_block() {
     }
 }
 
-fn drive(shared: &Arc<Shared>, state: &Arc<Mutex<JobState>>, log_fn: fn() -> Vec<String>) {
-    loop {
+/// Runs up to `batch` executions of one job on the calling thread.
+fn drive(shared: &Arc<Shared>, state: &Arc<Mutex<JobState>>, log_fn: fn() -> Vec<String>, batch: usize) {
+    for _ in 0..batch {
         let (p, scenario, selfcheck) = {
             let mut st = state.lock().unwrap();
             let Some(p) = st.pop() else { break };
@@ -483,44 +507,45 @@ fn drive(shared: &Arc<Shared>, state: &Arc<Mutex<JobState>>, log_fn: fn() -> Vec
         if let Some(e) = extra_err {
             if st.res.machinery_errors.len() < 5 {
                 let name = st.job.name.clone();
-                st.res
-                    .machinery_errors
-                    .push(format!("job {}: {}", name, e));
+                st.res.machinery_errors.push(format!("job {}: {}", name, e));
             }
         }
         st.absorb(&p, trace, diverged, verdict, Outcome::Done);
     }
+    maybe_finalize(shared, state);
 }
 
-fn worker(shared: Arc<Shared>, inherited: Option<Arc<Mutex<JobState>>>, log_fn: fn() -> Vec<String>) {
+fn worker(shared: Arc<Shared>, log_fn: fn() -> Vec<String>) {
     (shared.thread_init)();
-    let finish = |state: Arc<Mutex<JobState>>| {
-        let mut st = state.lock().unwrap();
-        if st.in_flight == 0 {
-            let mut res = std::mem::take(&mut st.res);
-            res.bound_completed = st.job.bound;
-            if res.capped {
-                res.bound_completed = res
-                    .execs_by_devs
-                    .keys()
-                    .max()
-                    .copied()
-                    .unwrap_or(0)
-                    .saturating_sub(1);
-            }
-            shared.results.lock().unwrap().push(res);
-        }
-    };
-    if let Some(state) = inherited {
-        drive(&shared, &state, log_fn);
-        finish(state);
-    }
     loop {
-        let job = shared.queue.lock().unwrap().pop_front();
-        let Some(job) = job else { break };
-        let state = Arc::new(Mutex::new(JobState::new(job)));
-        drive(&shared, &state, log_fn);
-        finish(state);
+        // find a job with pending work, or start a new one
+        let state = {
+            let mut act = shared.active_jobs.lock().unwrap();
+            act.retain(|s| !s.lock().unwrap().finalized);
+            let mut found = None;
+            for s in act.iter() {
+                if s.lock().unwrap().has_work() {
+                    found = Some(s.clone());
+                    break;
+                }
+            }
+            if found.is_none() {
+                if let Some(job) = shared.queue.lock().unwrap().pop_front() {
+                    let s = Arc::new(Mutex::new(JobState::new(job)));
+                    act.push(s.clone());
+                    found = Some(s);
+                }
+            }
+            match found {
+                Some(s) => Ok(s),
+                None => Err(act.is_empty()),
+            }
+        };
+        match state {
+            Ok(s) => drive(&shared, &s, log_fn, 16),
+            Err(true) => break, // no active job, empty queue
+            Err(false) => std::thread::sleep(Duration::from_micros(200)), // others still in flight
+        }
     }
     shared.active.fetch_sub(1, Ordering::SeqCst);
     let _g = shared.cv_m.lock().unwrap();
@@ -547,8 +572,9 @@ pub fn run_jobs(
     let t0 = Instant::now();
     let shared = Arc::new(Shared {
         queue: Mutex::new(jobs.into_iter().collect()),
+        active_jobs: Mutex::new(Vec::new()),
         results: Mutex::new(Vec::new()),
-        orphaned: Mutex::new(Vec::new()),
+        respawn: AtomicUsize::new(0),
         active: AtomicUsize::new(0),
         blocked_threads: AtomicUsize::new(0),
         cv: Condvar::new(),
@@ -556,16 +582,16 @@ pub fn run_jobs(
         heartbeat: AtomicU64::new(0),
         thread_init,
     });
-    let spawn = |inherited: Option<Arc<Mutex<JobState>>>| {
+    let spawn = || {
         shared.active.fetch_add(1, Ordering::SeqCst);
         let sh = shared.clone();
         std::thread::Builder::new()
             .stack_size(8 << 20)
-            .spawn(move || worker(sh, inherited, log_fn))
+            .spawn(move || worker(sh, log_fn))
             .expect("spawn worker");
     };
     for _ in 0..threads.max(1) {
-        spawn(None);
+        spawn();
     }
     let mut last_hb = 0u64;
     let mut last_change = Instant::now();
@@ -573,16 +599,13 @@ pub fn run_jobs(
     loop {
         {
             let g = shared.cv_m.lock().unwrap();
-            let _ = shared
-                .cv
-                .wait_timeout(g, Duration::from_millis(200))
-                .unwrap();
+            let _ = shared.cv.wait_timeout(g, Duration::from_millis(100)).unwrap();
         }
-        let orphans: Vec<_> = std::mem::take(&mut *shared.orphaned.lock().unwrap());
-        for o in orphans {
-            spawn(Some(o));
+        let n = shared.respawn.swap(0, Ordering::SeqCst);
+        for _ in 0..n {
+            spawn();
         }
-        if shared.active.load(Ordering::SeqCst) == 0 && shared.orphaned.lock().unwrap().is_empty() {
+        if shared.active.load(Ordering::SeqCst) == 0 && shared.respawn.load(Ordering::SeqCst) == 0 {
             break;
         }
         let hb = shared.heartbeat.load(Ordering::Relaxed);
